@@ -150,6 +150,7 @@ type hctx struct {
 	pendingGhost []pendingGhostCheck
 	retPaths []*smt.Term
 	calleeKeep []frameLoc
+	allocBound *smt.Term
 	callPos  token.Pos
 	callerFn string
 }
@@ -208,7 +209,10 @@ type Exec struct {
 	vacuityOn bool
 	objSeq map[int]int
 	specObj map[int]bool
+	curAssertStatic types.Type
+	curAssertStaticT types.Type
 	keepOnHavoc []frameLoc
+	allocBound *smt.Term
 	lastRetPaths []*smt.Term
 	ghostNames map[string]bool
 	pendingGhost []pendingGhostCheck
